@@ -90,7 +90,8 @@ Qed.
 
 Lemma ff_run_hist sh stages init i0 evs :
   ff_run sh stages init i0 evs =
-  FF (input_after sh (norm sh i0) evs) (hist stages (norm sh init) (sampled sh (norm sh i0) evs)).
+  FF (input_after sh (norm sh i0) evs)
+     (hist stages (norm sh (ff_ctor_init init)) (sampled sh (norm sh i0) evs)).
 Proof.
   unfold ff_run, ff_start, ff_chain. rewrite <- hist_nil. rewrite ff_run_gen. reflexivity.
 Qed.
@@ -98,10 +99,30 @@ Qed.
 Lemma ff_sync_latency sh stages init i0 evs : (1 <= stages)%nat ->
   let n := count_oedges evs in
   ff_out (ff_run sh stages init i0 evs) =
-  if (n <? stages)%nat then norm sh init else nth (n - stages) (sampled sh (norm sh i0) evs) 0%Z.
+  if (n <? stages)%nat then norm sh (ff_ctor_init init)
+  else nth (n - stages) (sampled sh (norm sh i0) evs) 0%Z.
 Proof.
   intros Hs n. rewrite ff_run_hist. unfold ff_out. simpl. rewrite last_hist by assumption.
   rewrite sampled_length. reflexivity.
+Qed.
+
+Lemma norm_zero sh : wf_shape sh = true -> norm sh 0 = 0%Z.
+Proof.
+  intros Hwf. apply norm_id; [assumption|]. unfold in_range. unfold wf_shape in Hwf.
+  destruct (sgn sh).
+  - apply Z.leb_le in Hwf. pose proof (pow2_pos (width sh - 1) ltac:(lia)). lia.
+  - apply Z.leb_le in Hwf. pose proof (pow2_pos (width sh) Hwf). lia.
+Qed.
+
+(* constructed without init= : the output is 0 until the stages-th output edge, whatever the input's
+   own initial value i0 is; from then on it is the input (starting with i0 if it was not driven) *)
+Lemma ff_default_init sh stages i0 evs : (1 <= stages)%nat -> wf_shape sh = true ->
+  let n := count_oedges evs in
+  ff_out (ff_run sh stages None i0 evs) =
+  if (n <? stages)%nat then 0%Z else nth (n - stages) (sampled sh (norm sh i0) evs) 0%Z.
+Proof.
+  intros Hs Hwf n. rewrite ff_sync_latency by assumption. cbv zeta. fold n.
+  cbn [ff_ctor_init]. rewrite norm_zero by assumption. reflexivity.
 Qed.
 
 Lemma count_oedges_app a b : count_oedges (a ++ b) = (count_oedges a + count_oedges b)%nat.
